@@ -701,6 +701,20 @@ def gen_history(rng):
     shared_binds = {}
     # small per-run pools so that collisions are frequent
     epool = [gen.gen_expr(rng, ids, rng.choice([1, 2, 3])) for _ in range(6)]
+    if scenario in ('mixed', 'machines', 'rep') and rng.random() < 0.6:
+        # closed query expressions (nothing a state could still bind: initial symbols and constants only) over cells
+        # that the step instructions write: an evaluation that finds the cell unknown returns an EQUAL expression,
+        # and the same object is asked again after a store, or on another machine that knows the cell
+        def closed_query():
+            ini = [x for x in inits if x[1] in ('init_ebx', 'init_esp', 'init_esi', 'init_edi')]
+            base = rng.choice(ini) if (ini and rng.random() < 0.85) else ['I', 'uint32', rng.choice([0x1000, 0x200000])]
+            d = rng.choice([0, 4, 5, 2, 8, 1, -4, -8, 3])
+            a = base if d == 0 else (['O', '+', [base, ['I', 'uint32', d & 0xffffffff]]] if base[0] == 'D' else ['I', 'uint32', (base[2] + d) & 0xffffffff])
+            q = ['M', a, rng.choice([32, 32, 16, 8]), None, False]
+            if q[2] == 32 and rng.random() < 0.3:
+                q = ['O', '+', [q, ['I', 'uint32', 1]]]
+            return q
+        epool += [closed_query() for _ in range(rng.choice([1, 2, 3]))]
     bpool = [rng.choice(gen.BYTES_POOL) for _ in range(4)] + [gen.gen_random_bytes(rng) for _ in range(2)] + gen.gen_family_pool(rng, 4)
     att_share = rng.choice([0.1, 0.5, 0.9])
     mtx = rng.sample(gen.ASM_MEMTXT, 3)
